@@ -1616,7 +1616,7 @@ Qed.
    With only well-kindedness (parent_kind (kindof w c) = Some (kindof w p)) the owner may be an IR and c a module;
    set_add / set_discard are no-ops on such an owner (module lists are handled by the _ModuleList hooks), so
    "par w' c = Some p" resp. "par w' c = None" fail.  Two concrete consistent worlds witness this; all effect
-   theorems above therefore carry the extra hypothesis kindof w p <> KIR (implied by the OSet / OSetParent guards
+   theorems above therefore carry the extra premise kindof w p <> KIR (implied by the OSet / OSetParent guards
    inside F1). *)
 
 Definition ref_ir : node :=
@@ -1650,14 +1650,14 @@ Lemma wref_forest b : Forest (wref b) [2; 1].
 Proof.
   constructor.
   - intro n. rewrite wref_has. cbn [In]. destruct (Z.eqb_spec n 2) as [E|E]; destruct (Z.eqb_spec n 1) as [E1|E1];
-    cbn [orb]; split; intro H; try reflexivity; try discriminate H; try lia.
-    destruct H as [H|[H|[]]]; congruence.
+    cbn [orb]; split; intro H; try reflexivity; try discriminate H; try lia;
+    try (destruct H as [H|[H|[]]]; congruence).
   - intros p c. rewrite wref_kids. rewrite wref_par. destruct b.
     + destruct (Z.eqb_spec p 1) as [E|E]; destruct (Z.eqb_spec c 2) as [E1|E1]; cbn [In]; split; intro H;
-      try congruence; try tauto.
-      * destruct H as [H|[]]. congruence.
-      * injection H as H. congruence.
-      * discriminate H.
+      try congruence; try tauto; try discriminate H;
+      try (destruct H as [H|[]]; congruence); try (injection H as H; congruence).
+      * subst p. reflexivity.
+      * left. congruence.
     + cbn [In]. split; [intros []|]. destruct (c =? 2); intro H; discriminate H.
   - intro p. rewrite wref_kids. destruct b; [destruct (p =? 1)|]; repeat constructor. intros [].
   - intros p c. rewrite wref_par. destruct (Z.eqb_spec c 2) as [E|E]; [|intro H; discriminate H].
@@ -1672,7 +1672,7 @@ Proof.
   destruct (Z.eqb_spec ir 2) as [E|E]; [discriminate Hk|]. destruct (Z.eqb_spec ir 1) as [E1|E1]; [|discriminate Hk].
   subst ir. unfold reach. destruct b.
   - change (cache (wref true) 1) with [(10, 1); (20, 2)]. change (subtree (wref true) 1) with [1; 2].
-    split; [repeat constructor; cbn [In]; lia|]. intros u n. rewrite wref_getn. cbn [dict_get In].
+    split; [cbn [map fst]; repeat constructor; cbn [In]; lia|]. intros u n. rewrite wref_getn. cbn [dict_get In].
     destruct (Z.eqb_spec 10 u) as [A|A]; [|destruct (Z.eqb_spec 20 u) as [B|B]].
     + split; [intro H; injection H as H; subst n u; split; [tauto|reflexivity]|].
       intros [[H|[H|[]]] H2]; subst n; cbn in H2; [reflexivity|lia].
@@ -1680,7 +1680,7 @@ Proof.
       intros [[H|[H|[]]] H2]; subst n; cbn in H2; [lia|reflexivity].
     + split; [intro H; discriminate H|]. intros [[H|[H|[]]] H2]; subst n; cbn in H2; lia.
   - change (cache (wref false) 1) with [(10, 1)]. change (subtree (wref false) 1) with [1].
-    split; [repeat constructor; intros []|]. intros u n. rewrite wref_getn. cbn [dict_get In].
+    split; [cbn [map fst]; repeat constructor; intros []|]. intros u n. rewrite wref_getn. cbn [dict_get In].
     destruct (Z.eqb_spec 10 u) as [A|A].
     + split; [intro H; injection H as H; subst n u; split; [tauto|reflexivity]|].
       intros [[H|[]] H2]; subst n; reflexivity.
